@@ -274,7 +274,7 @@ for i in range(40 * SCALE):
     meta.append({"kind": "model-plain-doc", "desc": {"doc_head": doc[:200], "len": len(doc)}, "spec_ok": True, "spec_msg": "", "key": None})
     count("model-plain-doc")
     # the same document as a plain-form tree: premises of reader_extracts_tree (wf, depth), tree serialisation = document, tree data = reader's result
-    doc_t = R.choice(["", "", "\n", "generated by a client\n"]) + ksrxml.render_tree(ksrxml.ksr_tree(req), R, permute=i % 2 == 1, tail_blanks=False)
+    doc_t = R.choice(["", "", "\n", "generated by a client\n"]) + ksrxml.render_tree(ksrxml.ksr_tree(req), R, permute=i % 2 == 1, tail_blanks=i % 4 != 3)
     ct = X.case_tree(xp, doc_t) if len(doc_t) <= 2800 else None
     if ct is None:
         count("plain-form-tree-not-applicable")        # a prolog comment or padded text: outside the theorem's form
